@@ -103,8 +103,10 @@ fn one_case(kind: Kind, seed: u64, rep: &mut Report) {
         frames.push(Fr::Good(0, 5));
     }
     let half_close = rng.chance(1, 3);
+    // the reader is parked on the empty socket when the peer writes everything and hangs up in one go
+    let parked = !after_close && rng.chance(1, 2);
     let pieces = rng.below(4);
-    let desc = format!("peer closes {} seed={} frames={} bytes={} reader_starts_after_close={} shutdown_only={} pieces={}", kind.name(), seed, frames.len(), total, after_close, half_close, pieces);
+    let desc = format!("peer closes {} seed={} frames={} bytes={} reader_starts_after_close={} reader_parked_when_the_peer_writes_and_hangs_up={} shutdown_only={} pieces={}", kind.name(), seed, frames.len(), total, after_close, parked, half_close, pieces);
     rep.eval(vnet::fnv(desc.as_bytes()));
     rep.count(&format!("real_socket_cases.{}", kind.name()));
     if after_close {
@@ -125,8 +127,14 @@ fn one_case(kind: Kind, seed: u64, rep: &mut Report) {
         let chunks = vnet::chunks_at(&stream, &cuts);
         let writer = std::thread::spawn(move || -> std::io::Result<Option<UnixStream>> {
             let mut sb = sb;
-            for ch in chunks {
-                sb.write_all(&ch)?;
+            if parked {
+                std::thread::sleep(Duration::from_millis(3));
+                let all: Vec<u8> = chunks.concat();
+                sb.write_all(&all)?;
+            } else {
+                for ch in chunks {
+                    sb.write_all(&ch)?;
+                }
             }
             if half_close {
                 sb.shutdown(std::net::Shutdown::Write)?;
